@@ -26,14 +26,18 @@ def _targets(prog, t):
     return None
 
 
-def _remap(x, lo, bo):
-    """deep copy of a fact fragment with locals shifted by lo (block ids are handled by the caller)"""
+def _remap(x, lo, bo, up=None):
+    """deep copy of a fact fragment with locals shifted by lo (block ids are handled by the caller); `up` maps the upvar
+    fields of a spliced coroutine's environment `_1.k` to fresh locals (scalar replacement of the environment)"""
     if isinstance(x, dict):
         if "l" in x and "p" in x and isinstance(x["l"], int):
-            return {"l": x["l"] + lo, "p": [_remap_proj(e, lo) for e in x["p"]], **{k: copy.deepcopy(v) for k, v in x.items() if k not in ("l", "p")}}
-        return {k: _remap(v, lo, bo) for k, v in x.items()}
+            proj = x["p"]
+            if up is not None and x["l"] == 1 and proj and isinstance(proj[0], dict) and "f" in proj[0] and proj[0]["f"] in up:
+                return {"l": up[proj[0]["f"]], "p": [_remap_proj(e, lo) for e in proj[1:]], **{k: copy.deepcopy(v) for k, v in x.items() if k not in ("l", "p")}}
+            return {"l": x["l"] + lo, "p": [_remap_proj(e, lo) for e in proj], **{k: copy.deepcopy(v) for k, v in x.items() if k not in ("l", "p")}}
+        return {k: _remap(v, lo, bo, up) for k, v in x.items()}
     if isinstance(x, list):
-        return [_remap(v, lo, bo) for v in x]
+        return [_remap(v, lo, bo, up) for v in x]
     return x
 
 
@@ -45,14 +49,72 @@ def _remap_proj(e, lo):
     return copy.deepcopy(e)
 
 
-def _remap_term(t, lo, bo):
-    t2 = _remap(t, lo, bo)
+def _remap_term(t, lo, bo, up=None):
+    t2 = _remap(t, lo, bo, up)
     for k in ("target", "unwind", "otherwise", "drop"):
         if isinstance(t2.get(k), int):
             t2[k] = t2[k] + bo
     if "targets" in t2:
         t2["targets"] = [[v, b + bo] for v, b in t2["targets"]]
     return t2
+
+
+AWAIT_PLUMBING = ("core::future::into_future::IntoFuture::into_future", "core::pin::Pin::new_unchecked", "core::pin::Pin::<Ptr>::new_unchecked")
+
+
+def _ctor_call(prog, blocks, local, H, limit=12):
+    """the call that created the future polled through `local`: walk unique definitions back through the await plumbing to a
+    call of a workspace `async fn` whose body only builds the coroutine H from its parameters.
+    Returns (block index, [call-argument index for each upvar]) or None."""
+    for _ in range(limit):
+        defs = []
+        for bi, blk in enumerate(blocks):
+            for s in blk["s"]:
+                if s["k"] == "assign" and s["place"]["l"] == local and not s["place"]["p"]:
+                    defs.append(("s", bi, s))
+            t = blk["t"]
+            if t["k"] == "call" and t.get("dest") is not None and t["dest"]["l"] == local and not t["dest"]["p"]:
+                defs.append(("c", bi, t))
+        if len(defs) != 1:
+            return None
+        kind, bi, d = defs[0]
+        if kind == "s":
+            rv = d["rv"]
+            if rv["k"] == "ref":
+                if [e for e in rv["place"]["p"] if e != "*"]:
+                    return None
+                local = rv["place"]["l"]
+                continue
+            if rv["k"] == "use":
+                pl = rv["op"].get("copy") or rv["op"].get("move")
+                if pl is None or pl["p"]:
+                    return None
+                local = pl["l"]
+                continue
+            return None
+        f = callee(d)
+        if f is None:
+            return None
+        if norm(f["name"]) in AWAIT_PLUMBING:
+            pl = d["args"][0].get("copy") or d["args"][0].get("move")
+            if pl is None or pl["p"]:
+                return None
+            local = pl["l"]
+            continue
+        X = _targets(prog, d)
+        if X is None or X.raw.get("coroutine"):
+            return None
+        aggs = [s for blk in X.blocks for s in blk["s"] if s["k"] == "assign" and s["rv"]["k"] == "agg" and s["rv"].get("agg") == "coroutine"]
+        if len(aggs) != 1 or aggs[0]["rv"].get("def") != H.id or aggs[0]["place"]["l"] != 0:
+            return None
+        amap = []
+        for o in aggs[0]["rv"]["ops"]:
+            pl = o.get("copy") or o.get("move")
+            if pl is None or pl["p"] or not (1 <= pl["l"] <= X.mir["argc"]):
+                return None
+            amap.append(pl["l"] - 1)
+        return bi, amap
+    return None
 
 
 def inlined(prog, body, want, depth=3, _chain=()):
@@ -73,8 +135,28 @@ def inlined(prog, body, want, depth=3, _chain=()):
         if t["k"] != "call" or d <= 0:
             continue
         cb = _targets(prog, t)
-        if cb is None or cb.id in ch or cb.raw.get("coroutine") or not want(cb):
+        if cb is None or cb.id in ch or not want(cb):
             continue
+        up = None
+        if cb.raw.get("coroutine"):
+            # `helper(args).await`: the poll of the helper's coroutine is replaced by the coroutine's body; its upvars become
+            # fresh locals assigned from the arguments where the helper was called, its result is wrapped in Poll::Ready
+            f = callee(t)
+            if f is None or not norm(f["name"]).endswith("future::Future::poll") or len(t["args"]) != 2:
+                continue
+            pl = t["args"][0].get("copy") or t["args"][0].get("move")
+            found = _ctor_call(prog, blocks, pl["l"], cb) if pl is not None and not pl["p"] else None
+            if found is None:
+                continue
+            ctor_bb, amap = found
+            cargs = blocks[ctor_bb]["t"]["args"]
+            up = {}
+            for k, ai in enumerate(amap):
+                nl = len(mir["locals"])
+                mir["locals"].append({"ty": "?upvar", "name": None, "inlined_from": cb.name, "upvar": k})
+                up[k] = nl
+                blocks[ctor_bb]["s"].append({"k": "assign", "place": {"l": nl, "p": []}, "rv": {"k": "use", "op": copy.deepcopy(cargs[ai])},
+                                             "span": blocks[ctor_bb].get("ts")})
         lo, bo = len(mir["locals"]), len(blocks)
         for l in cb.locals:
             l2 = dict(l)
@@ -84,7 +166,7 @@ def inlined(prog, body, want, depth=3, _chain=()):
         cont = bo + nb          # continuation: dest = callee _0; goto target
         prelude = bo + nb + 1   # parameter assignments; goto callee entry
         for i, blk in enumerate(cb.blocks):
-            b2 = {"s": [_remap(s, lo, bo) for s in blk["s"]], "t": _remap_term(blk["t"], lo, bo), "cleanup": blk.get("cleanup", False),
+            b2 = {"s": [_remap(s, lo, bo, up) for s in blk["s"]], "t": _remap_term(blk["t"], lo, bo, up), "cleanup": blk.get("cleanup", False),
                   "ts": blk.get("ts"), "inlined_from": cb.name}
             for k, v in blk.items():
                 if k not in b2:
@@ -98,11 +180,18 @@ def inlined(prog, body, want, depth=3, _chain=()):
         span = blocks[bb].get("ts")
         cont_blk = {"s": [], "t": {"k": "goto", "target": t["target"]} if t.get("target") is not None else {"k": "unreachable"},
                     "cleanup": False, "ts": span, "inlined_from": cb.name}
-        if t.get("dest") is not None:
+        if t.get("dest") is not None and up is None:
             cont_blk["s"].append({"k": "assign", "place": copy.deepcopy(t["dest"]), "rv": {"k": "use", "op": {"move": {"l": lo, "p": []}}}, "span": span})
+        elif t.get("dest") is not None:
+            cont_blk["s"].append({"k": "assign", "place": copy.deepcopy(t["dest"]), "span": span,
+                                  "rv": {"k": "agg", "agg": "adt", "adt": "core::task::poll::Poll", "adt_name": "core::task::poll::Poll", "args": [],
+                                         "variant": "Ready", "vi": 0, "fields": ["0"], "ops": [{"move": {"l": lo, "p": []}}]}})
         blocks.append(cont_blk)
         pre = {"s": [], "t": {"k": "goto", "target": bo}, "cleanup": False, "ts": span, "inlined_from": cb.name}
-        for i, a in enumerate(t["args"]):
+        if up is not None:
+            # resume argument of the spliced coroutine = the context the caller polls with
+            pre["s"].append({"k": "assign", "place": {"l": lo + 2, "p": []}, "rv": {"k": "use", "op": copy.deepcopy(t["args"][1])}, "span": span})
+        for i, a in enumerate(t["args"] if up is None else []):
             pre["s"].append({"k": "assign", "place": {"l": lo + 1 + i, "p": []}, "rv": {"k": "use", "op": copy.deepcopy(a)}, "span": span})
         blocks.append(pre)
         blocks[bb]["t"] = {"k": "goto", "target": prelude, "inlined_call": norm(cb.name)}
@@ -142,6 +231,13 @@ def _fold_constant_switches(mir):
         if len(ds) != 1 or ds[0] is None:
             return None
         rv = ds[0]["rv"]
+        if rv["k"] == "discr" and not rv["place"]["p"] and rv.get("enum"):
+            src = defs.get(rv["place"]["l"], [])
+            if len(src) == 1 and src[0] is not None and src[0]["rv"]["k"] == "agg" and src[0]["rv"].get("variant") and rv["place"]["l"] not in borrowed:
+                for ent in rv["enum"]["variants"]:
+                    if ent[1] == src[0]["rv"]["variant"]:
+                        return ent[0]
+            return None
         if rv["k"] != "use":
             return None
         op = rv["op"]
@@ -171,8 +267,25 @@ def same_impl_helpers(body):
     parent = body.raw.get("parent") or body.name.rsplit("::", 1)[0]
     pname = norm(body.name).rsplit("::", 1)[0]
 
+    root = body.prog.bodies.get(body.root, body)
+    pname = norm(root.name).rsplit("::", 1)[0]
+
     def want(cb):
-        if cb.raw.get("derived") or cb.crate != body.crate or cb.kind not in ("Fn", "AssocFn"):
+        if cb.raw.get("derived") or cb.crate != body.crate:
             return False
-        return norm(cb.name).rsplit("::", 1)[0] == pname
+        n = norm(cb.name)
+        fn = cb
+        if cb.raw.get("coroutine"):
+            # body of an `async fn` helper: `<helper>::{closure#0}`
+            if not n.endswith("::{closure#0}") or cb.id == body.id:
+                return False
+            n = n[:-len("::{closure#0}")]
+            fn = body.prog.bodies.get(cb.root)
+            if fn is None or n == norm(root.name):
+                return False
+        elif cb.kind not in ("Fn", "AssocFn"):
+            return False
+        if fn.raw.get("pub") or fn.raw.get("exported"):
+            return False   # public API is what the rules are written against; only private helpers are spliced
+        return n.rsplit("::", 1)[0] == pname
     return want
